@@ -610,12 +610,13 @@ func (r *yieldRewriter) rewriteForStmt(
 }
 
 // the cond func returns bool, a condition of a named bool type (type B bool; for ok() { ... })
-// isn't assignable to it without a conversion
+// or of a type param (B ~bool) isn't assignable to it without a conversion
 func (r *yieldRewriter) boolCond(cond ast.Expr) ast.Expr {
 	if isNil(cond) {
 		return cond
 	}
-	if _, named := r.pkg.TypeOf(cond).(*types.Named); named {
+	switch r.pkg.TypeOf(cond).(type) {
+	case *types.Named, *types.TypeParam:
 		return X.Call(X.Ident("bool"), cond)
 	}
 	return cond
